@@ -18,7 +18,10 @@ RULE = ('(a) vsched harness (see C17): 2-6 threads on one shared memory (min 1, 
         'count at that point of the order, a successful grow of a shared memory takes the mutex. (b) real threads: the same '
         'module under ThreadSanitizer with concurrent grow / size / load / store must produce no race report on the memory '
         'descriptor. Non-trivial = schedule with >= 2 successful grows, one of them preempted between its start and its lock '
-        'acquisition by the other, or a failing grow; distinct by (programs, decision string).')
+        'acquisition by the other, or a failing grow; distinct by (programs, decision string). Large memories: a shared memory '
+        'with a maximum of 9000-33000 pages is grown from 1 page to its maximum in generated steps (1-16383 pages) by 1-3 threads '
+        'while 1-3 others store / load / fill in the first page (real threads; ThreadSanitizer, AddressSanitizer and optimised '
+        'builds): no report, every store read back, grow results form one chain, final size = 1 + successful deltas.')
 ASSUME = ['linearization point = acquisition of the memory mutex, the mechanism the property names', 'schedules are sampled']
 
 
@@ -132,9 +135,168 @@ def run_tsan(case):
     return None
 
 
+# ------------------------------------------------------------------------------------------------ large shared memories
+# A shared memory whose declared maximum is gigabytes (16500 ... 33000 pages): growers take it from 1 page up to the maximum in
+# generated steps (1 ... 16383 pages at a time) WHILE other threads load, store and fill in the first page.  However the runtime
+# manages the reservation, the data of a shared memory must stay where the other threads are using it: ThreadSanitizer / ASan builds
+# must stay silent, every store must be read back, and the grow results must form one chain.
+BIG_DRIVER = r'''
+#include <stdio.h>
+#include <stdlib.h>
+#include <string.h>
+#include <pthread.h>
+#include <sched.h>
+#include "m.h"
+void trap(Trap t) { fprintf(stderr, "trap %d\n", (int)t); _exit(70); }
+#ifdef VF_IMPORTED_MEMORY
+static wasmMemory* vf_shared;
+static void* vf_resolve(const char* module, const char* name) {
+    (void)module;
+    if (strcmp(name, "memory") == 0) { if (!vf_shared) vf_shared = wasmMemoryAllocate(1, VF_IMPORTED_MEMORY, true); return vf_shared; }
+    return NULL;
+}
+#define VF_RESOLVER vf_resolve
+#else
+#define VF_RESOLVER NULL
+#endif
+static mInstance root;
+static int ND; static unsigned deltas[256]; static unsigned results[256]; static int nextd;
+static volatile int done; static unsigned long progress; static unsigned long mism; static int K;
+static pthread_barrier_t bar;
+static void* grower(void* p) {
+    mInstance* i = (mInstance*)p; int j;
+    pthread_barrier_wait(&bar);
+    while ((j = __sync_fetch_and_add(&nextd, 1)) < ND) {
+        /* grow number j happens after the users have made j*K accesses: the grows are spread over the users' activity */
+        while (__atomic_load_n(&progress, __ATOMIC_RELAXED) < (unsigned long)j * (unsigned long)K) sched_yield();
+        results[j] = m_grow(i, deltas[j]);
+    }
+    return NULL;
+}
+static int userno;
+static void* user(void* p) {
+    mInstance* i = (mInstance*)p; unsigned k = 0; U32 cell = 4096 + 64 * (U32)__sync_fetch_and_add(&userno, 1);
+    pthread_barrier_wait(&bar);
+    while (!__atomic_load_n(&done, __ATOMIC_RELAXED)) {
+        k++;
+        m_store32(i, cell, k);
+        if (m_load32(i, cell) != k) __sync_fetch_and_add(&mism, 1);
+        if ((k & 63) == 0) { m_fill(i, cell + 16384, k, 32); (void)m_size(i); }
+        __sync_fetch_and_add(&progress, 1);
+    }
+    return NULL;
+}
+int main(int argc, char** argv) {
+    pthread_t th[8]; int t, G = atoi(argv[1]), U = atoi(argv[2]), j;
+    K = atoi(argv[3]);
+    for (j = 4; j < argc && ND < 256; j++) deltas[ND++] = (unsigned)strtoul(argv[j], NULL, 10);
+    mInstantiate(&root, VF_RESOLVER);
+    pthread_barrier_init(&bar, NULL, (unsigned)(G + U));
+    for (t = 0; t < G + U; t++) pthread_create(&th[t], NULL, t < G ? grower : user, root.common.newChild((wasmModuleInstance*)&root));
+    for (t = 0; t < G; t++) pthread_join(th[t], NULL);
+    __atomic_store_n(&done, 1, __ATOMIC_RELAXED);
+    for (t = G; t < G + U; t++) pthread_join(th[t], NULL);
+    for (j = 0; j < ND; j++) printf("G %u %u\n", deltas[j], results[j]);
+    printf("P %u\nM %lu\nA %lu\n", m_memory(&root)->pages, mism, progress);
+    return 0;
+}
+'''
+_big = {}
+BIG_BUILDS = {'clang-tsan': ['clang', '-O1', '-g', '-w', '-fsanitize=thread'], 'clang-asan': ['clang', '-O1', '-g', '-w', '-fsanitize=address'],
+              'gcc-O2': ['gcc', '-O2', '-w']}
+
+
+def big_binary(build, maxpages, imported):
+    key = (build, maxpages, imported)
+    if key in _big and os.path.exists(_big[key]):
+        return _big[key]
+    d = cexec.new_dir('bg')
+    tr = cexec.translate(wasm.encode(sched.harness_module(imported, maxpages)), d, 'm', (), 'plain')
+    if tr.rc != 0:
+        raise cexec.InfraError('translate failed')
+    open(os.path.join(d, 'drv.c'), 'w').write(BIG_DRIVER)
+    cmd = BIG_BUILDS[build] + (['-DVF_IMPORTED_MEMORY=%d' % maxpages] if imported else []) + ['-DWASM_THREADS_PTHREADS', '-I', os.path.join(cexec.REPO, 'w2c2'),
+           '-I', os.path.join(cexec.REPO, 'futex'), 'drv.c', 'm.c'] + [os.path.join(cexec.REPO, 'futex', f) for f in cexec.FUTEX_SRCS] + \
+        ['-o', 'bg', '-lpthread', '-lm']
+    r = cexec.run(cmd, cwd=d)
+    if r.returncode != 0:
+        raise cexec.InfraError('building the large-memory grow harness failed: %s' % r.stderr.decode(errors='replace')[-1200:])
+    _big[key] = os.path.join(d, 'bg')
+    return _big[key]
+
+
+def run_big(case):
+    exe = big_binary(case['build'], case['maxpages'], bool(case.get('imported')))
+    env = dict(os.environ)
+    env['TSAN_OPTIONS'] = 'exitcode=96:report_thread_leaks=0'
+    env['ASAN_OPTIONS'] = 'detect_leaks=0:exitcode=99:allocator_may_return_null=1'
+    try:
+        r = subprocess.run([exe, str(case['G']), str(case['U']), str(case['K'])] + [str(x) for x in case['deltas']],
+                           stdout=subprocess.PIPE, stderr=subprocess.PIPE, env=env, timeout=600)
+    except subprocess.TimeoutExpired:
+        return ('timeout', 'large-memory harness did not finish')
+    err = r.stderr.decode(errors='replace')
+    if r.returncode == 70 and 'trap 4' in err:          # trapAllocationFailed
+        return None         # the host could not provide the reservation at instantiation: nothing to decide
+    if r.returncode != 0:
+        locs = [l.strip() for l in err.splitlines() if l.strip().startswith('#0') or 'ERROR: AddressSanitizer' in l][:2]
+        return ('big:' + f1.normalize_diag(' '.join(locs) or 'exit %d' % r.returncode)[:80],
+                'shared memory with a maximum of %d pages, growers %d, users %d (%s): exit %d: %s' % (case['maxpages'], case['G'], case['U'], case['build'], r.returncode, err[:1500]))
+    grows, pages, mism = [], None, None
+    for ln in r.stdout.decode().splitlines():
+        p = ln.split()
+        if p[0] == 'G':
+            grows.append((int(p[1]), int(p[2])))
+        elif p[0] == 'P':
+            pages = int(p[1])
+        elif p[0] == 'M':
+            mism = int(p[1])
+    if mism:
+        return ('big:readback', 'shared memory with a maximum of %d pages (%s): %d stores were not read back by the storing thread while other threads grew the memory' % (case['maxpages'], case['build'], mism))
+    ok = sorted((old, d) for d, old in grows if old != 0xffffffff)
+    cur = 1
+    for old, d in ok:
+        if old != cur:
+            return ('big:chain', 'grow results do not form one chain from 1 page: %r' % (ok[:12],))
+        cur += d
+    if cur > case['maxpages'] or pages != cur:
+        return ('big:final', 'final size %r pages, successful grows add up to %d (maximum %d)' % (pages, cur, case['maxpages']))
+    return None
+
+
+def big_task(wid, seed, params):
+    res = {'evaluations': 0, 'nontrivial': set(), 'classes': collections.Counter(), 'samples': [], 'violations': [],
+           'infra': [], 'extra': {}}
+    for ci in range(params['ncases']):
+        ch = Chooser(seed * 1000003 + ci)
+        maxpages = ch.pick((16500, 20000, 33000, 9000))
+        deltas, tot = [], 1
+        while tot < maxpages + 2000 and len(deltas) < 200:
+            d = ch.pick((1, 2, 100, 1000, 1023, 1024, 1025, 4096, 8191, 8192, 16383, 1 + ch.below(3000)))
+            deltas.append(d)
+            tot += d
+        case = {'kind': 'big', 'build': params['builds'][(wid + ci) % len(params['builds'])], 'maxpages': maxpages, 'G': ch.pick((1, 2, 3)),
+                'U': ch.pick((1, 2, 3)), 'K': ch.pick((20, 200, 1000)), 'deltas': deltas, 'imported': ch.below(3) == 0}
+        try:
+            bad = run_big(case)
+        except cexec.InfraError as e:
+            res['infra'].append(str(e))
+            break
+        res['evaluations'] += 1
+        res['classes']['large_shared_memory_' + case['build']] += 1
+        res['nontrivial'].add(f1.hx(repr(case)))
+        if ci < 1:
+            res['samples'].append({'large shared memory: maximum': maxpages, 'growers': case['G'], 'users': case['U'], 'build': case['build'], 'deltas': deltas[:10]})
+        if bad and not res['violations']:
+            res['violations'].append({'signature': 'c18:' + bad[0], 'summary': bad[1][:900], 'replay': {'kind': 'big', 'case': case, 'message': bad[1][:2500]}})
+    return res
+
+
 def task(wid, seed, params):
     res = {'evaluations': 0, 'nontrivial': set(), 'classes': collections.Counter(), 'samples': [], 'violations': [],
            'infra': [], 'extra': {}}
+    if params.get('big'):
+        return big_task(wid, seed, params)
     if params.get('tsan'):
         for ci in range(params['ncases']):
             ch = Chooser(seed * 1000003 + ci)
@@ -193,6 +355,11 @@ def task(wid, seed, params):
 
 
 def replay(rp):
+    if rp.get('kind') == 'big':
+        for _ in range(3):
+            if run_big(rp['case']):
+                return True
+        return False
     if rp.get('kind') == 'tsan':
         for _ in range(3):
             if run_tsan(rp['case']):
@@ -204,8 +371,8 @@ def replay(rp):
 
 def plan(tier, seed):
     if tier == 'quick':
-        return [{'ncases': 60, 'schedules': 12, 'maxops': 5} for _ in range(30)] + [{'tsan': True, 'ncases': 6} for _ in range(2)]
-    return [{'ncases': 1200, 'schedules': 25, 'maxops': 7} for _ in range(60)] + [{'tsan': True, 'ncases': 60} for _ in range(4)]
+        return [{'ncases': 60, 'schedules': 12, 'maxops': 5} for _ in range(30)] + [{'tsan': True, 'ncases': 6} for _ in range(2)] + [{'big': True, 'ncases': 3, 'builds': ['clang-tsan', 'clang-asan', 'gcc-O2']} for _ in range(3)]
+    return [{'ncases': 1200, 'schedules': 25, 'maxops': 7} for _ in range(60)] + [{'tsan': True, 'ncases': 60} for _ in range(4)] + [{'big': True, 'ncases': 40, 'builds': ['clang-tsan', 'clang-asan', 'gcc-O2']} for _ in range(6)]
 
 
 def run(tier, seed):
